@@ -47,6 +47,11 @@ def run(ctx, db, tier):
     # the ready deque is a named boundary whose only allocation is growth at the back; any other operation on it (shrink_to_fit, resize, a
     # swap with a fresh container ...) re-allocates behind that boundary on otherwise allocation-free paths
     C05.fifo_ops(ctx, db, 'C20.ready-queue-only-fifo-ops')
+    if ctx.cfg == 'assert':
+        from .. import witness
+        witness.positive(ctx, 'C20.error-paths-allocate-no-message', 'C20_pos.cpp', 'the exceptions thrown by the core primitives (broken promise, value not ready, no more values) are '
+                         'constructed without dynamic memory: nothrow default constructible, not derived from the string-carrying std exception classes, no state of their own '
+                         '(the IR rule stops at the exception machinery, whose own allocation is the runtime\'s)')
     C19.trailers(ctx, db) if False else storage_learns(ctx, db)
 
 
